@@ -1,0 +1,23 @@
+//go:build verif
+// +build verif
+
+package models
+
+// Verification hooks for property C33 (compiled only with -tags verif).
+
+// VerifEncrypt is the unexported encrypt of namespace.go.
+func VerifEncrypt(key, data string) (string, error) { return encrypt(key, data) }
+
+// VerifDecrypt is the unexported decrypt of namespace.go.
+func VerifDecrypt(key, data string) (string, error) { return decrypt(key, data) }
+
+// VerifLocalClientAt returns a LocalClient over storagePath without touching
+// the file system (NewLocalClient creates the directory).
+func VerifLocalClientAt(storagePath, prefix string) *LocalClient {
+	return &LocalClient{storagePath: storagePath, Prefix: prefix, FileSuffix: ".json"}
+}
+
+// VerifSafeJoinPath is LocalClient.safeJoinPath.
+func (lc *LocalClient) VerifSafeJoinPath(path string) (string, error) {
+	return lc.safeJoinPath(path)
+}
